@@ -4,7 +4,7 @@ from __future__ import annotations
 import ast
 from typing import Dict, List, Optional, Set, Tuple
 
-from ..calls import Resolver
+from ..calls import Reach, Resolver
 from ..cfg import CFG
 from ..core import AnalysisError, Report
 from ..effects import is_table, table_aliases, writes_in
@@ -142,6 +142,13 @@ def run(rep: Report) -> None:
             continue
         direct = any(d.split("(")[0].split(".")[-1] in ("lru_cache", "cache") for d in fi.decorators)
         ws = [w for w in writes_in(prog, resolver, q)]
+        # helpers it calls (context-pruned), apart from the interning constructors themselves
+        sub = Reach(resolver, [q])
+        for g in sorted(sub.reached):
+            gi = prog.functions[g]
+            if g == q or gi.name in ("__new__", "__init__") or g == "Prefix._register":
+                continue
+            ws += [w for w in writes_in(prog, resolver, g) if sub.feasible_node(g, w.node) and not w.location.startswith("attr:")]
         rep.check("R20.2", q, direct and not ws,
                   f"{q}: " + ("memoised through a custom wrapper (thread coherence unknown)" if not direct else
                               f"writes shared state {sorted({w.location for w in ws})} inside a memoised function"), fi.where())
